@@ -273,6 +273,8 @@ pub enum CtlMode {
     Error,
     /// Err only for WrBackpressure notifications
     ErrorOnWr,
+    /// Stop notifications wait on `Conn::cgates`; outcome Ok = no packet, Nack = own DISCONNECT (v5), Err = error
+    Gated,
 }
 
 #[derive(Clone, Debug)]
@@ -462,6 +464,22 @@ impl Sink {
             Sink::V5(s) => s.force_close(),
         }
     }
+    /// v5: close with an application-chosen DISCONNECT (marked with reason string "app")
+    pub fn close_with_reason(&self, code: u8) {
+        match self {
+            Sink::V3(s) => s.close(),
+            Sink::V5(s) => s.close_with_reason(
+                v5::codec::Disconnect::new(v5::codec::DisconnectReasonCode::try_from(code).unwrap_or(v5::codec::DisconnectReasonCode::UnspecifiedError))
+                    .reason_string(Some("app".into())),
+            ),
+        }
+    }
+    pub fn close_with_no_reason(&self) {
+        match self {
+            Sink::V3(s) => s.close(),
+            Sink::V5(s) => s.close_with_no_reason(),
+        }
+    }
 }
 
 pub struct Conn {
@@ -477,6 +495,8 @@ pub struct Conn {
     pub gates: Rc<Gates>,
     pub pgates: Rc<Gates>,
     pub hgates: Rc<Gates>,
+    pub rgates: Rc<Gates>,
+    pub cgates: Rc<Gates>,
     pub sink: Rc<RefCell<Option<Sink>>>,
     pub peer_closed: bool,
     /// bytes the harness wrote to the endpoint
@@ -489,6 +509,9 @@ impl Drop for Conn {
         self.gates.clear_wakers();
         self.pgates.clear_wakers();
         self.hgates.clear_wakers();
+        self.rgates.clear_wakers();
+        self.cgates.clear_wakers();
+        CGATES.with(|c| *c.borrow_mut() = None);
     }
 }
 
@@ -647,7 +670,13 @@ pub struct Handles {
     pub pgates: Rc<Gates>,
     pub hgates: Rc<Gates>,
     pub rgates: Rc<Gates>,
+    pub cgates: Rc<Gates>,
     pub sink: Rc<RefCell<Option<Sink>>>,
+}
+
+thread_local! {
+    /// control-service gates of the connection created last on this thread (CtlMode::Gated)
+    static CGATES: RefCell<Option<Rc<Gates>>> = const { RefCell::new(None) };
 }
 
 impl Handles {
@@ -658,6 +687,11 @@ impl Handles {
             pgates: Gates::new(cfg.proto_auto),
             hgates: Gates::new(false),
             rgates: Gates::new(false),
+            cgates: {
+                let g = Gates::new(false);
+                CGATES.with(|c| *c.borrow_mut() = Some(g.clone()));
+                g
+            },
             sink: Rc::new(RefCell::new(None)),
         }
     }
@@ -736,6 +770,22 @@ async fn ctl_service<R>(c: Control<TErr>, log: Log, mode: CtlMode, own: Option<R
     log.push(Rec::Ctl(lbl.clone()));
     let is_wr = matches!(c, Control::WrBackpressure(_));
     let r = match mode {
+        CtlMode::Gated if !is_wr => {
+            // the world may already have been dropped (teardown phase)
+            let Some(g) = CGATES.with(|c| c.borrow().clone()) else {
+                log.push(Rec::CtlDone(lbl));
+                return Ok(None);
+            };
+            let k = g.enter();
+            let o = g.wait(k).await;
+            g.st.borrow_mut()[k].exited = true;
+            match o {
+                GateOutcome::Ok => Ok(None),
+                GateOutcome::Nack(_) => Ok(own),
+                GateOutcome::Err => Err(TErr::Plain),
+            }
+        }
+        CtlMode::Gated => Ok(None),
         CtlMode::None => Ok(None),
         CtlMode::OwnDisconnect => Ok(if is_wr { None } else { own }),
         CtlMode::Error => Err(TErr::Plain),
@@ -851,10 +901,12 @@ pub async fn start_v5_server(cfg: &EpCfg) -> Conn {
                     m => m.ack(),
                 }),
                 // "Nack" on the protocol gate = the application asks to disconnect
-                GateOutcome::Nack(c) => Ok(msg.disconnect_with(v5::codec::Disconnect::new(
-                    v5::codec::DisconnectReasonCode::try_from(c)
-                        .unwrap_or(v5::codec::DisconnectReasonCode::UnspecifiedError),
-                ))),
+                GateOutcome::Nack(c) => Ok(msg.disconnect_with(
+                    v5::codec::Disconnect::new(
+                        v5::codec::DisconnectReasonCode::try_from(c).unwrap_or(v5::codec::DisconnectReasonCode::UnspecifiedError),
+                    )
+                    .reason_string(Some("proto".into())),
+                )),
                 GateOutcome::Err => Err(TErr::Plain),
             }
         }
@@ -866,7 +918,7 @@ pub async fn start_v5_server(cfg: &EpCfg) -> Conn {
         async move {
             Ok::<_, TErr>(fn_service(move |c: Control<TErr>| {
                 let own = Some(v5::codec::Encoded::Packet(v5::codec::Packet::Disconnect(
-                    v5::codec::Disconnect::default(),
+                    v5::codec::Disconnect::default().reason_string(Some("ctl".into())),
                 )));
                 ctl_service(c, log.clone(), mode, own)
             }))
@@ -939,6 +991,8 @@ pub async fn start_v5_server(cfg: &EpCfg) -> Conn {
         gates: h.gates,
         pgates: h.pgates,
         hgates: h.hgates,
+        rgates: h.rgates,
+        cgates: h.cgates,
         sink: h.sink,
         peer_closed: false,
         sent: Vec::new(),
@@ -1059,6 +1113,8 @@ pub async fn start_v3_server(cfg: &EpCfg) -> Conn {
         gates: h.gates,
         pgates: h.pgates,
         hgates: h.hgates,
+        rgates: h.rgates,
+        cgates: h.cgates,
         sink: h.sink,
         peer_closed: false,
         sent: Vec::new(),
@@ -1093,6 +1149,8 @@ fn mk_conn(cfg: &EpCfg, peer: IoTest, h: Handles) -> Conn {
         gates: h.gates,
         pgates: h.pgates,
         hgates: h.hgates,
+        rgates: h.rgates,
+        cgates: h.cgates,
         sink: h.sink,
         peer_closed: false,
         sent: Vec::new(),
@@ -1203,9 +1261,12 @@ pub async fn start_v5_client(cfg: &EpCfg) -> Conn {
                         log.push(Rec::PExit { k: guard.k });
                         match o {
                             GateOutcome::Err => Err(TErr::Plain),
-                            GateOutcome::Nack(code) => Ok(other.disconnect(v5::codec::Disconnect::new(
-                                v5::codec::DisconnectReasonCode::try_from(code).unwrap_or(v5::codec::DisconnectReasonCode::UnspecifiedError),
-                            ))),
+                            GateOutcome::Nack(code) => Ok(other.disconnect(
+                                v5::codec::Disconnect::new(
+                                    v5::codec::DisconnectReasonCode::try_from(code).unwrap_or(v5::codec::DisconnectReasonCode::UnspecifiedError),
+                                )
+                                .reason_string(Some("proto".into())),
+                            )),
                             GateOutcome::Ok => Ok(other.ack()),
                         }
                     }
@@ -1222,7 +1283,7 @@ pub async fn start_v5_client(cfg: &EpCfg) -> Conn {
         } else {
             let (logc, mode) = (log.clone(), c.ctl);
             let control = fn_service(move |ctl: Control<TErr>| {
-                let own = Some(v5::codec::Encoded::Packet(v5::codec::Packet::Disconnect(v5::codec::Disconnect::default())));
+                let own = Some(v5::codec::Encoded::Packet(v5::codec::Packet::Disconnect(v5::codec::Disconnect::default().reason_string(Some("ctl".into())))));
                 ctl_service(ctl, logc.clone(), mode, own)
             });
             let r = client.start_with_control(protocol, control).await;
